@@ -16,12 +16,16 @@
     * `raft_no_two_leaders_now`      two members that are leader in the same term at the same time are equal
     * `raft_one_vote_per_term`       a member never grants two different candidates in one term
     * `raft_leader_has_quorum`       every leader was granted by a majority
-  PARTIAL (full statements kept as `def …Statement`):
-    * `RaftLogMatchingStatement`, `RaftCommittedPrefixAgreementStatement` - see the `_partial` theorems below.
+    * `raft_log_matching`            same (position, term) in two logs ⇒ identical prefixes (full)
+    * `raft_log_wellformed`          index consistency of logs and AppendEntries segments
+  PARTIAL (full statement kept as `def …Statement`):
+    * `RaftCommittedPrefixAgreementStatement` - see `raft_committed_prefix_agreement_partial` (leader
+      completeness is the missing lemma).
 -/
 import HvProto.Lemmas.PaxosInst
 import HvProto.Lemmas.RaftRefine
 import HvProto.Lemmas.RaftLog
+import HvProto.Lemmas.RaftMatch
 
 namespace HvProto.C40
 open HvProto
@@ -57,6 +61,16 @@ theorem paxos_rules_are_spec_guards (b : PaxosRules.Ballot) (m : Option PaxosRul
           Gen.p2Quorum f = f + 1 ∧ Gen.p2Participants f = 2 * f + 1) :=
   ⟨(Paxos.aux_rule_p1b b m).1, (Paxos.aux_rule_p1b b m).2, Paxos.aux_rule_p2aLog b m,
    Paxos.aux_rule_p2bOk b m, Paxos.aux_rule_logReplace b p, fun _ => ⟨rfl, rfl, rfl, rfl⟩⟩
+
+/-- `recommit_after_leader_election`: the fold over the entries reported for a slot (with the operators
+    of the current source) proposes the value of a reported entry with the highest ballot - guard (b) of
+    the abstract `sendP2a`; whatever the order in which the entries are folded. -/
+theorem paxos_recommit_value_is_highest_ballot (f : Nat) (es : List (PaxosRules.Ballot × Nat)) (v : Nat)
+    (h : PaxosRules.recommitValue f es = some v) :
+    ∃ b, (b, v) ∈ es ∧ ∀ b' w, (b', w) ∈ es → b' ≤ b :=
+  Paxos.aux_rule_recommit f es v h
+
+example : PaxosRules.recommitValue 1 [(⟨1, 0⟩, 5), (⟨2, 1⟩, 6)] = some 6 := by decide
 
 /-! non-vacuity: a reachable state (f = 1, three acceptors) in which value 7 is chosen for slot 0 -/
 namespace PaxosExample
@@ -173,27 +187,24 @@ end RaftExample
 
 /-! ### partial clauses -/
 
-/-- Log matching (RAFT §5.3): if two logs hold an entry with the same index and term, the logs are
-    identical up to that index. -/
-def RaftLogMatchingStatement (n : Nat) : Prop :=
-  ∀ s, Raft.Reach n s → ∀ a b i, i < (s.nodes a).log.length → i < (s.nodes b).log.length →
-    ((s.nodes a).log.getD i default).term = ((s.nodes b).log.getD i default).term →
-    (s.nodes a).log.take (i + 1) = (s.nodes b).log.take (i + 1)
-
 /-- State machine safety: the committed prefixes of any two members are prefix-comparable
     (no two members commit different entries at the same log position). -/
 def RaftCommittedPrefixAgreementStatement (n : Nat) : Prop :=
   ∀ s, Raft.Reach n s → ∀ a b i, i < (s.nodes a).commitIndex → i < (s.nodes b).commitIndex →
     (s.nodes a).log.getD i default = (s.nodes b).log.getD i default
 
-/-- PARTIAL towards `RaftLogMatchingStatement`: the index half. In every reachable state every log is
-    index-consistent (`log[i].index = i+1`, which is what `raft_step` relies on when it addresses
-    `state.log[entry.index - 1]`) and every `AppendEntries` in flight carries the consecutive positions
-    `prev+1, prev+2, ..`; hence two entries with equal `index` fields sit at equal positions in any two logs.
-    MISSING: the term half (equal terms at a position imply equal prefixes) - it needs the invariant that
-    every entry of term `t` is a copy of an entry of the unique leader of `t` (election safety is proved,
-    the per-term canonical-log invariant over `appendEntriesLoop` is not). -/
-theorem raft_log_matching_partial (n : Nat) (s : Raft.Sys) (h : Raft.Reach n s) :
+/-- **Log matching** (RAFT §5.3), full: in every state reached by any sequence of `raft_step` calls, if the
+    logs of two members hold entries of the same term at the same position, the two logs are identical up to
+    and including that position (payloads included). Proved with a ghost per-term canonical log through the
+    truncate/skip/append loop of the `AppendEntries` arm. -/
+theorem raft_log_matching (n : Nat) (s : Raft.Sys) (h : Raft.Reach n s) (a b i : Nat) (ea eb : Raft.Entry)
+    (ha : (s.nodes a).log[i]? = some ea) (hb : (s.nodes b).log[i]? = some eb) (ht : ea.term = eb.term) :
+    (s.nodes a).log.take (i + 1) = (s.nodes b).log.take (i + 1) :=
+  Raft.aux_log_matching n s h a b i ea eb ha hb ht
+
+/-- Logs are index-consistent (`log[i].index = i+1`, which `raft_step` relies on when it addresses
+    `state.log[entry.index - 1]`) and every `AppendEntries` in flight carries consecutive positions. -/
+theorem raft_log_wellformed (n : Nat) (s : Raft.Sys) (h : Raft.Reach n s) :
     (∀ v i e, (s.nodes v).log[i]? = some e → e.index = i + 1) ∧
     (∀ dst frm t l p pt es lc, s.net ⟨dst, frm, .appendEntries t l p pt es lc⟩ →
         ∀ k e, es[k]? = some e → e.index = p + k + 1) := by
@@ -205,7 +216,9 @@ theorem raft_log_matching_partial (n : Nat) (s : Raft.Sys) (h : Raft.Reach n s) 
     never indexes out of bounds and the truncation guard protects it), and what was emitted is committed
     (`emitted_index <= commit_index`).
     MISSING: leader completeness (a leader of a later term holds every entry committed earlier), which
-    together with log matching yields agreement of the committed prefixes of different members. -/
+    together with `raft_log_matching` (proved) yields agreement of the committed prefixes of different
+    members. Leader completeness needs the interplay of the commit rule (`advanceLoop`: current-term entry
+    acknowledged by a majority through `match_index`) with the §5.4.1 vote check; not proved here. -/
 theorem raft_committed_prefix_agreement_partial (n : Nat) (s : Raft.Sys) (h : Raft.Reach n s) (v : Nat) :
     (s.nodes v).commitIndex ≤ (s.nodes v).log.length ∧ (s.nodes v).emittedIndex ≤ (s.nodes v).commitIndex := by
   have hw := Raft.aux_winv_reach n s h
